@@ -21,6 +21,9 @@ def corpus():
 
 def generate(rng, tier):
     yield from R.search_cases(tier)
+    yield from R.scale_cases(tier)
+    # real executor, capacity argument != ring size: a producer lapping a handler shows as a wrong payload / gap at the handler
+    yield from R.smoke_scale_cases()
     for _ in range(120 if tier == 'quick' else 12000):
         # about one case in eight contains a stage that mixes a mutable handler with others (known finding F9)
         yield R.gen_case(rng, tier, allow_f9=rng.random() < 0.5)
